@@ -100,10 +100,13 @@ PROPS = {
                                    'Writer::prepare_changing_distance', 'clear_tree_nodes', 'lemma_tree_range'],
                   'tree_drivers': TREE_DRIVERS, 'insert_driver': ['Writer::insert_items_in_current_trees'], 'incr_driver': ['Writer::incremental_index_large_descendants'],
                   'trees_new': ['ImmutableTrees::new', 'ImmutableTrees::sub_tree_from_id'], 'insert_glue': ['Writer::insert_items_in_tree'],
-                  'build': ['Writer::build'], 'inv_lib': None, 'used_nodes': ['Writer::used_tree_node']},
+                  'build': ['Writer::build'], 'inv_lib': None, 'used_nodes': ['Writer::used_tree_node'],
+                  # read side ("hence the same items, forest and query answers"): these contracts mention entries of the reader's own index only
+                  'reader_open': ['Reader::open', 'item_leaf', 'QueryBuilder::by_item']},
         'kani': {'quick': [('key_layout', KEY_LAYOUT_ALL)]},
         'assumed_fns': WB_ASSUMED + BUILD_ASSUMED,
-        'trusted': ['build and its drivers: the frame clause same_except(old, final, index, ..) is an UNCONDITIONAL postcondition (it also holds on every error exit); the glue function pre_process_items is assumed to stay within the index (A6)'],
+        'trusted': ['build and its drivers: the frame clause same_except(old, final, index, ..) is an UNCONDITIONAL postcondition (it also holds on every error exit); the glue function pre_process_items is assumed to stay within the index (A6)',
+                    'read side: the contracts of Reader::open / item_leaf / by_item state their result from the entries of the reader\'s own index only (metadata key, marks and item keys of `index`), so an answer cannot depend on another index'],
         'not_decided': [],
     },
     'C10': {
@@ -160,7 +163,8 @@ PROPS = {
         'kani': {'quick': [('key_layout', KEY_LAYOUT_ALL), ('node_id_codec', NODE_ID), ('version_codec', ['version_encode_is_reference_layout', 'version_decode_reads_reference_layout']),
                            ('node_codec', ['leaf_encode_is_reference_layout_len2', 'split_encode_is_reference_layout_len1', 'node_tags_are_reference_values']),
                            ('f32_codec', ['f32_from_slice_roundtrip_is_bit_exact', 'f32_from_vec_is_bit_exact', 'f32_from_bytes_size_check']),
-                           ('distance_side', ['metric_names_are_reference_strings'])]},
+                           ('distance_side', ['metric_names_are_reference_strings']),
+                           ('header_layout', ['dot_product_header_is_extra_dim_then_norm', 'single_field_headers_are_four_bytes'])]},
         'trusted': ['node value layouts are proved for concrete vector lengths (leaf: 2 floats, split normal: 1 float) with symbolic contents'],
         'not_decided': ['golden fixtures written by a reference binary (none exists in the sandbox)', 'MetadataCodec byte layout and the roaring serialisation format',
                         'NodeCodec::bytes_decode of leaf / split values (CBMC does not finish on the boxed-error path); its parts NodeId::from_bytes, the tags and the vector size checks are proved'],
